@@ -189,6 +189,20 @@ def run_task(task):
     res = TaskResult()
     kind = task["kind"]
     try:
+        if kind == "opt":
+            from vlib import optrun
+            xs = [bytes((i * 31 + k) % 256 for i in range(n)) for n in (0, 1, 2, 3, 7, 8, 33, 64) for k in (0, 0x22, 0x4F, 0x7E)]
+            xs += [bytes([b]) * n for b in (0x50, 0x7E, 0xFF, 0x21) for n in (1, 2, 5)]
+            jobs = [{"fn": f, "arg": x.hex()} for x in xs for f in ("encode_string", "decode_string")]
+            for flag in ("-O", "-OO"):
+                got = optrun.run(jobs, flag)
+                for job, g in zip(jobs, got):
+                    x = bytes.fromhex(job["arg"])
+                    exp = (refcodec.ref_encode_string(x) if job["fn"] == "encode_string" else refcodec.ref_decode_string(x)).hex()
+                    if g != exp:
+                        raise Violation("holds_under_optimized_interpreter", {"hex": job["arg"], "opt": [job["fn"], flag]}, exp, g)
+                res.extra["optimized_interpreter_calls"] = res.extra.get("optimized_interpreter_calls", 0) + len(jobs)
+            return res
         if kind == "long":
             # long strings (packet sized and beyond): patterned content cycling through every byte value,
             # plain runs, and 0xFF-padded tails of odd and even length
@@ -278,7 +292,7 @@ def run_task(task):
 
 
 def plan(tier, seed):
-    tasks = [{"kind": "vectors"}, {"kind": "long"}]
+    tasks = [{"kind": "vectors"}, {"kind": "long"}, {"kind": "opt"}]
     maxlen = MAXLEN[tier]
     for L in range(1, 9):
         tasks.append({"kind": "sweep", "len": L})
@@ -310,4 +324,13 @@ def finalize(merged, tier):
 
 def replay(case):
     c = loader.core()
+    if case.get("opt"):
+        from vlib import optrun
+        fn, flag = case["opt"]
+        x = bytes.fromhex(case["hex"])
+        g = optrun.run([{"fn": fn, "arg": case["hex"]}], flag)[0]
+        exp = (refcodec.ref_encode_string(x) if fn == "encode_string" else refcodec.ref_decode_string(x)).hex()
+        if g != exp:
+            raise Violation("holds_under_optimized_interpreter", case, exp, g)
+        return
     check(c, bytes.fromhex(case["hex"]), case)
